@@ -240,6 +240,21 @@ theorem identical_zero_upsampled_torch {M N : ℕ} (hM : 0 < M) (hN : 0 < N) (x 
   simp only [patchRefine, hcond, and_self, if_true]
   rw [hsym1, hsym2, parabolic_symm, parabolic_symm, hfin, centre_zero hM, centre_zero hN]
 
+/-- **Intensity-scale invariance**: multiplying both images by the same non-zero factor `a`
+(any size: `1e-12`, `1e+6`, …) changes neither estimator's result — the correlation table is
+multiplied by `a² > 0`, which moves no comparison of the arg-max and cancels in the parabola.
+In particular nothing may depend on the absolute pixel values being "large enough". -/
+theorem shift_scale_invariant {M N : ℕ} (a : ℝ) (ha : a ≠ 0) (x y : ℕ → ℕ → ℝ) :
+    let sx : ℕ → ℕ → ℝ := fun i j => a * x i j
+    let sy : ℕ → ℕ → ℝ := fun i j => a * y i j
+    shiftNp1 M N (corrTable M N sx sy) (corrTable M N sx sy)
+        = shiftNp1 M N (corrTable M N x y) (corrTable M N x y) ∧
+    shiftTorch2 M N (corrTable M N sx sy) = shiftTorch2 M N (corrTable M N x y) := by
+  have hl : 0 < a * a := mul_self_pos.mpr ha
+  dsimp only
+  rw [corrTable_scale]
+  exact ⟨shiftNp1_scale hl M N _ _, shiftTorch2_scale hl M N _⟩
+
 /-! ### the FFT formula the code evaluates -/
 
 /-- **Correlation theorem.**  For every shape and every pair of real images, the table
